@@ -222,12 +222,20 @@ def forward(prog, rep):
         # a shared forwarding helper of the class is looked through; the parameter lookup itself stays a call
         b = builder(prog, fn, self_cls=prog.classes[CD], inline=True, no_inline=("_get_param_values",))
         ret = [s for s in cfg_of(fn).all_stmts() if isinstance(s, ast.Return)]
-        t = b.term(ret[-1].value, ret[-1])
         first = [p for p in fn.positional_params if p != "self"][0]
         want_kw = [("**", gpv)]
         if name == "draw_sample":
             want_kw.append(("random_state", P("random_state")))
         want = ("call", ("attr", ("attr", SELF, "distribution"), name), (P(first),), tuple(sorted(want_kw)))
+        # an early return for a scalar given (nothing to broadcast there) forwards the looked-up values as they are
+        early_ok = True
+        if name == "draw_sample" and len(ret) > 1:
+            pcs_ = path_conditions(prog, fn, b)
+            for r_ in ret[:-1]:
+                early_ok = early_ok and b.term(r_.value, r_) == want and any(_says_scalar(l, P("given")) for l in pcs_.of(r_))
+            if early_ok:
+                ret = ret[-1:]
+        t = b.term(ret[-1].value, ret[-1])
         per_value = None
         if name == "draw_sample" and t[0] == "call" and t != want:
             # sampling may re-shape the looked-up values (never change them): scalars broadcast to the shape of given
